@@ -95,7 +95,10 @@ def ob_call(report):
                 return viol(ob, [ex], 'wrapped service called more than once', 'rl-double-call', path_summary(r), len(res))
             for i in lim:
                 e = evs[i]
-                if vname(e.args[0]) != 'limiter.deref' or not (isinstance(e.args[1], z3.ExprRef) and e2.solve(r.pc + [e.args[1] != sender], want_model=False)[0] == 'unsat'):
+                def keyed_by_sender(kv):
+                    # the key must be the whole 256-bit peer id of the request (a key of another width is a truncation / hash of it)
+                    return isinstance(kv, z3.ExprRef) and z3.is_bv(kv) and kv.size() == 256 and e2.solve(r.pc + [kv != sender], want_model=False)[0] == 'unsat'
+                if vname(e.args[0]) != 'limiter.deref' or not keyed_by_sender(e.args[1]):
                     return viol(ob, [ex], f'the limiter consulted / the key used is not (this layer\'s shared limiter, the request\'s own peer id): {vrepr(e.args[0])[:40]}, {vrepr(e.args[1])[:40]}',
                                 'rl-key', path_summary(r), len(res))
             is_block = e2.solve(r.pc + [mode != BLOCK], want_model=False)[0] == 'unsat'
